@@ -166,5 +166,6 @@ Definition run (cmd : N) (arg : sx) : sx :=
   | 210 => run_glr_210 arg
   | 211 => run_glr_211 arg
   | 212 => run_glr_212 arg
+  | 213 => run_glr_213 arg
   | _ => L [A 999999]
   end.
